@@ -160,16 +160,21 @@ func NewTree() *BPTree {
 	return &BPTree{LastAddress: 0, keyPosMap: make(map[string]int64), enabledKeyPosMap: false}
 }
 
-var queue *Node
+// nodeQueue is the FIFO of nodes still to be written by WriteNodes. It used to
+// be a package-level variable, which two databases rotating a segment at the same
+// time (or anything else calling WriteNodes concurrently) corrupted.
+type nodeQueue struct {
+	head *Node
+}
 
-func enqueue(node *Node) {
+func (q *nodeQueue) enqueue(node *Node) {
 	var c *Node
 
-	if queue == nil {
-		queue = node
-		queue.Next = nil
+	if q.head == nil {
+		q.head = node
+		q.head.Next = nil
 	} else {
-		c = queue
+		c = q.head
 		for c.Next != nil {
 			c = c.Next
 		}
@@ -178,9 +183,9 @@ func enqueue(node *Node) {
 	}
 }
 
-func dequeue() *Node {
-	n := queue
-	queue = queue.Next
+func (q *nodeQueue) dequeue() *Node {
+	n := q.head
+	q.head = q.head.Next
 
 	return n
 }
@@ -338,12 +343,12 @@ func (t *BPTree) WriteNodes(rwMode RWMode, syncEnable bool, flag int) error {
 		return err
 	}
 
-	queue = nil
+	queue := &nodeQueue{}
 
-	enqueue(t.root)
+	queue.enqueue(t.root)
 
-	for queue != nil {
-		n = dequeue()
+	for queue.head != nil {
+		n = queue.dequeue()
 
 		_, err := t.WriteNode(n, -1, syncEnable, fd)
 		if err != nil {
@@ -354,7 +359,7 @@ func (t *BPTree) WriteNodes(rwMode RWMode, syncEnable bool, flag int) error {
 			if !n.isLeaf {
 				for i = 0; i <= n.KeysNum; i++ {
 					c, _ := n.pointers[i].(*Node)
-					enqueue(c)
+					queue.enqueue(c)
 				}
 			}
 		}
